@@ -126,7 +126,7 @@ class Heap:
 BUILTINS = {
     "len", "isinstance", "reversed", "enumerate", "list", "int", "str", "chr", "ord", "max", "min",
     "range", "tuple", "slice", "repr", "bool", "iter", "sorted", "all", "any", "abs", "super", "hash",
-    "set", "dict", "zip", "print", "getattr", "hasattr", "type", "id", "sum",
+    "set", "dict", "zip", "print", "getattr", "hasattr", "type", "id", "sum", "frozenset",
 }
 EXC_NAMES = {
     "IndexError", "KeyError", "AssertionError", "ValueError", "TypeError", "SyntaxError", "RuntimeError",
@@ -1127,6 +1127,12 @@ class Run:
         if name == "abs" and self._kind(args[0]) == "int":
             x = z(args[0])
             return wrap(z3.If(x >= 0, x, -x), "int")
+        if name in ("any", "all") and len(args) == 1 and isinstance(args[0], tuple):
+            ts = [self.truth(v) for v in args[0]]
+            if all(isinstance(t, bool) for t in ts):
+                return any(ts) if name == "any" else all(ts)
+            zs = [z3.BoolVal(t) if isinstance(t, bool) else t for t in ts]
+            return wrap(z3.Or(*zs) if name == "any" else z3.And(*zs), "bool")
         if name == "range":
             return ("$range", args)
         if name == "hash":
